@@ -5,9 +5,9 @@ package main
 // construction, or reported unless tabled.
 
 import (
-	"go/constant"
 	"fmt"
 	"go/ast"
+	"go/constant"
 	"go/token"
 	"go/types"
 	"sort"
